@@ -57,6 +57,8 @@ def may_observe(world, fname, edit):
     if edit["kind"] == "const_arg":
         # the edited keep's own node sees its arguments; everything that contains the edited line sees its text
         kept_here = [it["f"] for it in byname.get(edit["fun"], {"items": []})["items"] if it["k"] == "keep" and it["path"] == edit["path"]]
+        if edit["path"].startswith("(plain call"):
+            return True
         return edit["fun"] in r or fname in kept_here
     return True
 
